@@ -699,9 +699,15 @@ class Emitter {
 			r["size"] = (int64_t) L.getSize().getQuantity();
 		}
 		json::Array fs;
+		const ASTRecordLayout *LP = nullptr;
+		if (!RD->isInvalidDecl() && !RD->isDependentType())
+			LP = &Ctx.getASTRecordLayout(RD);
 		for (const FieldDecl *F : RD->fields()) {
 			json::Object fo;
 			fo["n"]        = F->getName().str();
+			if (LP && !F->isBitField())
+				fo["off"] = (int64_t) (LP->getFieldOffset(
+				                F->getFieldIndex()) / 8);
 			fo["t"]        = typeStr(F->getType());
 			QualType    FT = F->getType().getCanonicalType();
 			std::string rn = recOfType(FT);
